@@ -118,6 +118,12 @@ fn apply_edit(blocks: &mut BlockList, e: &Value) -> Result<(), flac_codec::Error
                 data: vec![0xC3; n - 32],
             });
         }
+        // an edit of the STREAMINFO block alone (its size never changes): MD5 and frame-size limits as a tagger or repair tool would
+        "edit_si" => {
+            let si = blocks.streaminfo_mut();
+            si.md5 = if n % 2 == 0 { None } else { Some([n as u8; 16]) };
+            si.maximum_frame_size = std::num::NonZero::new(1000 + n as u32);
+        }
         "fail" => return Err(flac_codec::Error::InvalidMetadataBlock),
         other => panic!("unknown edit {other}"),
     }
